@@ -33,193 +33,7 @@ ASSUMPTIONS = [
     "pandas groupby sorts group keys by default; np.unique and the 1-D set operations return sorted arrays",
 ]
 
-ROW_PROPS = {"fractures", "runouts", "finite_zone", "infinite_zone", "load", "cycles", "_finite_zone", "_infinite_zone",
-             "_obj", "_finite_fractures"}
-REDUCERS = {"max", "min", "mean", "sum", "any", "all", "count", "std", "var", "median", "prod", "nunique", "size", "eq_any"}
-SORTERS = {"np.sort", "sorted", "np.unique", "np.setdiff1d", "np.intersect1d", "np.setxor1d", "np.union1d"}
-ELEMENTWISE = {"np.log10", "np.log", "np.exp", "np.abs", "np.sqrt", "np.power", "np.logical_not", "np.logical_and",
-               "np.logical_or", "np.asarray", "np.array", "np.isnan", "np.where", "np.empty_like", "np.zeros_like",
-               "stats.norm.ppf", "stats.norm.cdf", "stats.norm.pdf", "abs"}
-ORDER_METHODS = {"head", "tail", "first", "last", "nth", "cumsum", "cumprod", "cummax", "cummin", "shift", "diff",
-                 "rolling", "expanding", "ewm", "pct_change"}
-PAIRWISE = {"stats.linregress", "linregress", "np.polyfit", "np.corrcoef", "np.dot"}
-
-
-class Orders:
-    def __init__(self, prog, modules):
-        self.prog = prog
-        self.modules = modules
-        self.attr = {}
-        self.flows = 0
-        self.sinks = []      # (fi, stmt, node, message)
-        self.pairings = []   # (fi, stmt, call, classes)
-
-    def oc(self, e, env, fi):
-        ci = fi.cls or (fi.parent.cls if fi.parent else None)
-        if isinstance(e, ast.Name):
-            return env.get(e.id)
-        if is_self_attr(e):
-            if e.attr in ROW_PROPS and ci is not None and ci.module.name.endswith(("fatigue_data", "elementary")):
-                self.flows += 1
-                return "ROW"
-            return self.attr.get((ci.key if ci else None, e.attr))
-        if isinstance(e, ast.Attribute):
-            b = self.oc(e.value, env, fi)
-            # self._fd.<prop> / infinite_zone.<col>
-            if is_self_attr(e.value, "_fd") or (isinstance(e.value, ast.Name) and e.value.id in ("fatigue_data",)):
-                if e.attr in ROW_PROPS:
-                    self.flows += 1
-                    return "ROW"
-                return None
-            if b == "ROW":
-                if e.attr in ("shape", "size", "ndim", "dtype", "columns", "name"):
-                    return "CLEAN"
-                return "ROW"
-            if isinstance(b, tuple) and b[0] == "GROUPBY":
-                return b
-            if b in ("SORTED", "GROUPED", "ROWG", "LADDER"):
-                if e.attr in ("shape", "size"):
-                    return "CLEAN"
-                return b
-            return None
-        if isinstance(e, ast.Subscript):
-            b = self.oc(e.value, env, fi)
-            if b == "ROW":
-                return "ROW"
-            if isinstance(b, tuple) and b[0] == "GROUPBY":
-                return b
-            return b if b in ("SORTED", "GROUPED", "ROWG", "LADDER") else None
-        if isinstance(e, (ast.BinOp,)):
-            ks = [self.oc(e.left, env, fi), self.oc(e.right, env, fi)]
-            for k in ("ROW", "ROWG", "GROUPED", "LADDER", "SORTED"):
-                if k in ks:
-                    return k if k != "SORTED" else None
-            return None
-        if isinstance(e, ast.UnaryOp):
-            return self.oc(e.operand, env, fi)
-        if isinstance(e, ast.Compare):
-            ks = [self.oc(e.left, env, fi)] + [self.oc(c, env, fi) for c in e.comparators]
-            for k in ("ROW", "ROWG", "GROUPED"):
-                if k in ks:
-                    return k
-            return None
-        if isinstance(e, ast.Call):
-            fn = call_name(e) or ""
-            f = e.func
-            if fn in SORTERS and e.args:
-                return "SORTED"
-            if fn.endswith("rossow_cumfreqs"):
-                return "LADDER"
-            if fn in ("len",):
-                return "CLEAN"
-            if fn in ELEMENTWISE and e.args:
-                ks = [self.oc(a, env, fi) for a in e.args]
-                for k in ("ROW", "ROWG", "GROUPED", "LADDER"):
-                    if k in ks:
-                        return k
-                if "SORTED" in ks and fn in ("np.log10", "np.log", "np.asarray", "np.array", "np.sqrt", "np.exp"):
-                    return "SORTED"      # monotone element-wise map keeps the order
-                return None
-            if isinstance(f, ast.Attribute):
-                recv = self.oc(f.value, env, fi)
-                if f.attr == "groupby" and recv == "ROW":
-                    sort = next((const_value(k.value) for k in e.keywords if k.arg == "sort"), True)
-                    return ("GROUPBY", bool(sort))
-                if isinstance(recv, tuple) and recv[0] == "GROUPBY":
-                    if f.attr in REDUCERS or f.attr in ("first", "last", "agg", "aggregate", "apply"):
-                        return "GROUPED" if recv[1] else "ROWG"
-                    return recv
-                if recv in ("ROW", "ROWG"):
-                    if f.attr in REDUCERS:
-                        return "CLEAN"
-                    if f.attr in ("sort_values", "sort_index"):
-                        return "SORTED"
-                    if f.attr in ("unique", "to_numpy", "astype", "copy", "reset_index", "loc", "dropna", "fillna",
-                                  "flatten", "eq", "isin", "mul", "div", "add", "sub", "pow", "abs", "to_frame"):
-                        return recv
-                    return None
-                if recv in ("GROUPED", "SORTED", "LADDER"):
-                    if f.attr in REDUCERS:
-                        return "CLEAN"
-                    if f.attr in ("to_numpy", "astype", "copy", "flatten"):
-                        return recv
-                    return None
-            return None
-        if isinstance(e, ast.IfExp):
-            a, b = self.oc(e.body, env, fi), self.oc(e.orelse, env, fi)
-            return a if a == b else (a or b)
-        return None
-
-    def scan(self, fi, report):
-        ci = fi.cls or (fi.parent.cls if fi.parent else None)
-        env = {}
-        if fi.name == "__init__" and ci is not None and ci.name == "PearlChainProbability":
-            env[fi.params[1]] = "ROW"
-            self.flows += 1
-        for _ in range(2):
-            for s in walk_stmts(fi.node.body):
-                if isinstance(s, ast.Assign):
-                    for t, v in tuple_assign_pairs(s):
-                        k = self.oc(v, env, fi)
-                        if isinstance(t, ast.Name):
-                            if k is not None:
-                                env[t.id] = k
-                            else:
-                                env.pop(t.id, None)
-                        elif is_self_attr(t) and k is not None:
-                            self.attr[(ci.key if ci else None, t.attr)] = k
-        if not report:
-            return
-        for s in walk_stmts(fi.node.body):
-            roots = [s.test] if isinstance(s, (ast.If, ast.While)) else ([s.iter] if isinstance(s, ast.For) else
-                                                                          ([] if isinstance(s, (ast.FunctionDef, ast.With, ast.Try, ast.ClassDef)) else [s]))
-            for r in roots:
-                for n in ast.walk(r):
-                    if isinstance(n, ast.Subscript) and isinstance(n.ctx, ast.Load):
-                        base = n.value
-                        via_iloc = isinstance(base, ast.Attribute) and base.attr in ("iloc", "iat")
-                        via_loc = isinstance(base, ast.Attribute) and base.attr in ("loc", "at")
-                        b = self.oc(base.value if (via_iloc or via_loc) else base, env, fi)
-                        if b not in ("ROW", "ROWG") or via_loc:
-                            continue
-                        sl = n.slice
-                        if isinstance(sl, ast.Tuple) and via_iloc:
-                            sl = sl.elts[0]
-                        c = const_value(sl)
-                        hit = isinstance(c, int) and not isinstance(c, bool)
-                        if isinstance(sl, ast.Slice):
-                            lo, up = const_value(sl.lower) if sl.lower else None, const_value(sl.upper) if sl.upper else None
-                            hit = (isinstance(lo, int) or isinstance(up, int)) and not (sl.lower is None and up == 0)
-                        if hit:
-                            self.sinks.append((fi, s, n, "constant positional access %s to row-ordered test data" % norm_text(n)))
-                    if isinstance(n, ast.Call) and isinstance(n.func, ast.Attribute):
-                        recv = self.oc(n.func.value, env, fi)
-                        if recv in ("ROW", "ROWG") and n.func.attr in ORDER_METHODS:
-                            self.sinks.append((fi, s, n, "order-sensitive operation .%s() on row-ordered test data" % n.func.attr))
-                        if recv in ("ROW", "ROWG") and n.func.attr == "drop_duplicates":
-                            keep = next((const_value(k.value) for k in n.keywords if k.arg == "keep"), "first")
-                            if keep is not False:
-                                self.sinks.append((fi, s, n, "drop_duplicates(keep=%r) on row-ordered test data" % keep))
-                    if isinstance(n, ast.Call):
-                        fn = call_name(n) or ""
-                        is_pair = fn in PAIRWISE
-                        if not is_pair:
-                            for key in self.prog.resolve_call(fi, n):
-                                callee = self.prog.functions.get(key)
-                                if callee is not None and callee.cls is not None and callee.cls.name == "ProbabilityFit":
-                                    is_pair = True
-                        if is_pair and len(n.args) >= 2:
-                            ks = [self.oc(a, env, fi) for a in n.args[:2]]
-                            self.pairings.append((fi, s, n, ks))
-
-    def run(self):
-        funcs = [fi for fi in self.prog.functions.values() if fi.module.name in self.modules]
-        for _ in range(2):
-            for fi in funcs:
-                self.scan(fi, False)
-        for fi in funcs:
-            self.scan(fi, True)
-        return len(funcs)
+from ..orders import Orders  # noqa: E402
 
 
 def run(ctx):
